@@ -333,4 +333,62 @@ Proof.
   apply (complete_no_watched_falsified (s_db st) (XB st) (s_ps st) C2 D1 (si_winv _ _ _ _ _ HS) id w Hw Hnb).
 Qed.
 
+(* ---------- nothing is left to decide ---------- *)
+
+Definition Decided (st : sst) : Prop :=
+  decide U (a_ge (s_act st)) (s_db st) (tr_lits st) = Some None /\ new_solvables st = [].
+
+Lemma resolve_decided : forall fuel st level st' lv,
+  resolve U a_ge a_conflict fuel st level = RLevel st' lv ->
+  decide U (a_ge (s_act st')) (s_db st') (tr_lits st') = Some None.
+Proof.
+  induction fuel as [|f IH]; intros st level st' lv H; cbn [resolve] in H; [discriminate|].
+  destruct (decide U (a_ge (s_act st)) (s_db st) (tr_lits st)) as [[d|]|] eqn:Ed; [| | discriminate].
+  - destruct (s_assign st (VSol (pd_cand d), true) (N.succ level) (pd_clause d)) as [st1|]; [|discriminate].
+    destruct (prop_learn U a_conflict f st1 (N.succ level)) as [st2 lv2|st2 core| |]; try discriminate.
+    apply (IH _ _ _ _ H).
+  - inversion H. subst. exact Ed.
+Qed.
+
+Lemma reject_not_accepted (st : sst) so start conf st' : reject st so start conf <> ROk st' true.
+Proof.
+  unfold reject. destruct (N.eqb start 0).
+  - destruct (unsolvable (s_db st) (ps_trail (s_ps st)) conf) as [[core ok]|]; discriminate.
+  - destruct (s_assign (s_undo_until st start) (so_var so, false) (N.succ start) 0); discriminate.
+Qed.
+
+Lemma run_loop_decided efuel so start : forall fuel st level st',
+  run_loop U P a_ge a_conflict fuel efuel st so start level = ROk st' true -> Decided st'.
+Proof.
+  induction fuel as [|f IH]; intros st level st' H; cbn [run_loop] in H; [discriminate|].
+  match type of H with (match ?F with _ => _ end) = _ => destruct F as [[[st2 level2] [conf|]]|] end;
+    [exfalso; apply (reject_not_accepted _ _ _ _ _ H) | | discriminate].
+  destruct (s_propagate st2 level2) as [[st3 [conf|]]|]; [| |discriminate].
+  - destruct (N.eqb level2 (N.succ start)); [exfalso; apply (reject_not_accepted _ _ _ _ _ H) | apply (IH _ _ _ H)].
+  - destruct (resolve U a_ge a_conflict f st3 level2) as [st4 level4|st4 core| |] eqn:Er; try discriminate.
+    destruct (new_solvables st4) as [|s0 sos] eqn:En.
+    + inversion H. subst. split; [apply (resolve_decided _ _ _ _ _ Er) | exact En].
+    + destruct (encode U P efuel st4 (s0 :: sos)) as [[st5 [|c0 confl]]|]; [| |discriminate]; apply (IH _ _ _ H).
+Qed.
+
+(* when the model answers with a solution for a problem without soft requirements, decide has nothing left to
+   propose on the final state and every installed solvable has been handed to the encoder; hence every
+   Requires clause of the database whose parent is installed has an installed candidate (or no candidate
+   at all: then it is an assertion) *)
+Theorem solve_sat_decided fuel efuel a0 order sol st :
+  solve U P a_ge a_conflict fuel efuel a0 order = (OSat sol, st) -> pr_soft P = [] ->
+  Decided st /\
+  forall c p r cands, In c (s_db st) -> ck c = KRequires p r cands -> lit_istrue (tr_lits st) (p, true) = true ->
+    concat cands = [] \/ exists x, In x (concat cands) /\ pval (tr_lits st) (VSol x) = Some true.
+Proof.
+  intros H Es. pose proof (solve_inv U P HW A a_ge a_conflict _ _ _ _ _ _ H) as HS.
+  assert (HD : Decided st).
+  { unfold solve in H.
+    destruct (run_sat U P a_ge a_conflict fuel efuel _ None) as [st1 [|]|st1 core| |] eqn:Er; try discriminate H.
+    rewrite Es in H. cbn [soft_loop] in H. inversion H. subst. unfold run_sat in Er. apply (run_loop_decided _ _ _ _ _ _ _ Er). }
+  split; [exact HD|]. destruct HD as [Hd _].
+  intros c p r cands Hc Hk Hp.
+  apply (decide_complete U (a_ge (s_act st)) (tr_lits st) (s_db st) (sinv_req_wf U P A st HS) Hd c p r cands Hc Hk Hp).
+Qed.
+
 End Complete.
